@@ -747,6 +747,17 @@ func (c *CEnv) call(x *ast.CallExpr) CVal {
 			return CVal{S: fmt.Sprintf("(forall ((%s %s)) (=> %s %s))", bv, e.idxSort(), guard, body), T: boolT}
 		}
 		return CVal{S: fmt.Sprintf("(exists ((%s %s)) (and %s %s))", bv, e.idxSort(), guard, body), T: boolT}
+	case "forallA":
+		// forallA(x, Type, P): x ranges over every value of the sort (no allocation bound) — for axioms
+		id, ok := arg(0).(*ast.Ident)
+		t := c.resolveType(arg(1))
+		if !ok || t == nil {
+			return c.fail("%s: need identifier and type", name)
+		}
+		bv := "|q." + id.Name + "|"
+		n := c.sub(map[string]CVal{id.Name: {S: bv, T: t}})
+		body := n.evalBool(arg(2))
+		return CVal{S: fmt.Sprintf("(forall ((%s %s)) %s)", bv, e.sortOf(t), body), T: boolT}
 	case "forallT", "existsT":
 		// forallT(x, Type, P): x ranges over all values of the Go type
 		id, ok := arg(0).(*ast.Ident)
@@ -778,6 +789,10 @@ func (c *CEnv) call(x *ast.CallExpr) CVal {
 			return CVal{S: "(s_len " + v.S + ")", T: intT}
 		case *types.Array:
 			return CVal{K: constant.MakeInt64(u.Len())}
+		case *types.Map:
+			md, _ := e.mapComps(u)
+			hd := e.comp(c.st, md, e.comps[md])
+			return CVal{S: fmt.Sprintf("(ite (= %s 0) %s (%s (select %s %s)))", v.S, e.idxLit("0"), e.ufCard(u), hd, v.S), T: intT}
 		case *types.Basic:
 			if isString(v.T) {
 				if e.bv() {
@@ -831,6 +846,9 @@ func (c *CEnv) call(x *ast.CallExpr) CVal {
 			}
 		}
 		return CVal{S: fmt.Sprintf("(> %s %s)", ref, c.old.alloc), T: boolT}
+	case "isalloc":
+		v := c.ev(arg(0))
+		return CVal{S: fmt.Sprintf("(and (< 0 %s) (<= %s %s))", v.S, v.S, c.st.alloc), T: boolT}
 	case "allocated":
 		v := c.ev(arg(0))
 		return CVal{S: fmt.Sprintf("(<= %s %s)", v.S, c.old.alloc), T: boolT}
